@@ -33,7 +33,9 @@ pub fn compress_block<M: Matcher>(state: &mut CompressState<M>, output: &mut Vec
     // literals section
 
     let mut writer = BitWriter::from(output);
-    if literals_vec.len() > 1024 {
+    // A Huffman table needs at least two different symbols
+    let single_symbol = literals_vec.iter().all(|x| *x == literals_vec[0]);
+    if literals_vec.len() > 1024 && !single_symbol {
         if let Some(table) =
             compress_literals(&literals_vec, state.last_huff_table.as_ref(), &mut writer)
         {
